@@ -912,18 +912,18 @@ Proof.
   - intros i t H. split; [exact H|reflexivity].
   - intros h t H. split; [exact H|reflexivity].
   - intros op e IH t H. simpl in H. destruct (type_of cols aggs e) as [a|] eqn:E; [|discriminate H].
-    destruct (IH a E) as [Ht Hv]. simpl. rewrite Ht, Hv. split; [exact H|reflexivity].
+    destruct (IH a eq_refl) as [Ht Hv]. simpl. rewrite Ht, Hv. split; [exact H|reflexivity].
   - intros op e1 e2 IH1 IH2 t H. simpl in H.
     destruct (type_of cols aggs e1) as [a|] eqn:E1; [|discriminate H].
     destruct (type_of cols aggs e2) as [b|] eqn:E2; [|discriminate H].
-    destruct (IH1 a E1) as [Ht1 Hv1]. destruct (IH2 b E2) as [Ht2 Hv2].
+    destruct (IH1 a eq_refl) as [Ht1 Hv1]. destruct (IH2 b eq_refl) as [Ht2 Hv2].
     simpl. rewrite Ht1, Ht2. unfold binop_casts, binop_c. rewrite H. split; [reflexivity|].
     unfold bin_c, apply_cast. now rewrite Hv1, Hv2.
   - intros e1 e2 e3 IH1 IH2 IH3 t H. simpl in H.
     destruct (type_of cols aggs e1) as [a|] eqn:E1; [|discriminate H].
     destruct (type_of cols aggs e2) as [b|] eqn:E2; [|discriminate H].
     destruct (type_of cols aggs e3) as [c|] eqn:E3; [|discriminate H].
-    destruct (IH1 a E1) as [Ht1 Hv1]. destruct (IH2 b E2) as [Ht2 Hv2]. destruct (IH3 c E3) as [Ht3 Hv3].
+    destruct (IH1 a eq_refl) as [Ht1 Hv1]. destruct (IH2 b eq_refl) as [Ht2 Hv2]. destruct (IH3 c eq_refl) as [Ht3 Hv3].
     simpl. rewrite Ht1, Ht2, Ht3, Hv1, Hv2, Hv3. split; [exact H|reflexivity].
   - intros args F t H. simpl in H. destruct (all_some (map (type_of cols aggs) args)) as [ts|] eqn:E; [|discriminate H].
     destruct (cons_args args ts F E) as [Hts Hvs]. simpl. rewrite Hts. split; [exact H|now apply and_go_ext].
@@ -934,6 +934,6 @@ Proof.
   - intros f args F t H. simpl in H. destruct (all_some (map (type_of cols aggs) args)) as [ts|] eqn:E; [|discriminate H].
     destruct (cons_args args ts F E) as [Hts Hvs]. simpl. rewrite Hts, (map_ext_forall args Hvs). split; [exact H|reflexivity].
   - intros n e items IH t H. simpl in H. destruct (type_of cols aggs e) as [a|] eqn:E; [|discriminate H].
-    destruct (IH a E) as [Ht Hv]. simpl. rewrite Ht, Hv. split; [exact H|reflexivity].
+    destruct (IH a eq_refl) as [Ht Hv]. simpl. rewrite Ht, Hv. split; [exact H|reflexivity].
 Qed.
 End Conservative.
